@@ -141,7 +141,7 @@ def harnesses(tier):
     want2 = ("brew[n=4,folds=2]", "brew[n=4,folds=2,cap,rng,fixed labels]", "brew[n=4+2,folds=2,2 files,cap,fixed labels]", "brew_with_mokapot_Model[n=4,folds=2]") if tier == "quick" else \
         ("brew[n=5,folds=2]", "brew[n=4,folds=2,cap,rng]", "brew[n=4,folds=2,2 files]", "brew_with_mokapot_Model[n=6,folds=2]")
     for h in c02.harnesses(tier):
-        if h.name in want2:
+        if h.name in want2 or "under another seed" in h.name:
             h.name = "L2:" + h.name
             hs.append(h)
     # L5: the alternative, count-based q-value estimate (qvalue_algorithm="from_counts") is anchored - accepting
@@ -243,6 +243,7 @@ def _lemma_reals():
     from checks import c02, c03
     REAL.setdefault("brew", c02.REAL["brew"])
     REAL.setdefault("real_model", c02.REAL["real_model"])
+    REAL.setdefault("rerun", c02.REAL["rerun"])
     from checks import c06
     REAL.setdefault("qvalues", c06.REAL["qvalues"])
     REAL.setdefault("confidence", c03.REAL["confidence"])
